@@ -283,21 +283,7 @@ def case_strategy(draw, big, mode='basic'):
             continue
         souts.append(T)
         skinds.append(kinds[i])
-    # KNOWN DEFECT (reported by the C10 audit, replay
-    # /var/tmp/audC10/dup_outputs.json): a value held twice makes the solver
-    # step over the next requested time when that one is less than a step
-    # away; such lists are not generated (the duplicate is dropped, counted)
-    maxnom = 2.0 * max([dt] + [v for v in seq if v is not None])
     xdup = 0
-    i = 0
-    while i + 1 < len(souts):
-        if souts[i] == souts[i + 1]:
-            later = [T for T in souts[i + 2:] if T > souts[i]]
-            if later and later[0] - souts[i] < 1.01 * maxnom:
-                del souts[i + 1], skinds[i + 1]
-                xdup += 1
-                continue
-        i += 1
     case = dict(dt=dt, tf=tf, pfreq=pfreq, n_damp=n_damp, outs=souts,
                 out_kinds=skinds, adaptive=adaptive, seq=seq,
                 max_steps=max_steps, kind=kind)
@@ -772,8 +758,6 @@ def check(case):
         labels.append('dump_override')
     if case.get('show', False) is None:
         labels.append('show_default')
-    if case.get('xdup'):
-        labels.append('excluded:dup_followed')
     if case.get('xpar'):
         labels.append('excluded:parallel_no_criterion')
     if case.get('t0'):
